@@ -186,6 +186,7 @@ class Frame(object):
         self.types = dict(getattr(cls, "types", {}))
         self.values = dict(getattr(cls, "values", {}))
         self.use_defaults = tuple(getattr(cls, "use_defaults", ()))
+        self.globals_unchanged = bool(getattr(cls, "globals_unchanged", False))
         self.assumptions = list(getattr(cls, "assumptions", []))
         self.property_ids = tuple(getattr(cls, "properties", ()))
 
